@@ -1296,6 +1296,10 @@ def np_argmax(a, axis=None, **kw):
     idx = tuple(V.fresh("argmax", "int") for _ in a.shape)
     if p is None:
         raise Unsupported("symbolic argmax outside a path")
+    if V.SAFETY[0]:
+        # numpy raises ValueError for the argmax of an empty array
+        p.oblige("safety.argmax_nonempty", V.sand(*[V.compare(">=", s_, 1) for s_ in a.shape]),
+                 {"kind": "safety", "clause": "argmax of a non-empty array"})
     for i, s in zip(idx, a.shape):
         p.assume(V.sand(i >= 0, i < s))
     # maximiser: forall j in range: a[idx] >= a[j]
@@ -1600,6 +1604,16 @@ def _getattr_hook(interp, obj, name):
             return _arr_method(A.materialize(obj), name)
         if name == "rechunk":
             return lambda *a, **k: obj
+        if name == "sum":
+            def _msum(axis=None, **kw):
+                # sum over the rows selected by a 1-d boolean mask on axis 0: uninterpreted, recorded as ghost state
+                src = A.from_nested(obj.arr)
+                if axis != 0 or obj.mask.ndim != 1:
+                    raise Unsupported("masked sum other than rows-by-mask over axis 0")
+                res = _uf_array("masked_sum", src.shape[1:], "real")
+                GHOST.setdefault("masked_sum", []).append((res, src, obj.mask))
+                return res
+            return _msum
         if name == "mean":
             def _mmean(axis=None, **kw):
                 # mean over the rows selected by a 1-d boolean mask on axis 0: an uninterpreted array; the selection
